@@ -43,11 +43,12 @@ CHECKS = {
              "(from_native returns a schema exactly for plain values and raises ValueError for every other value at any "
              "depth), fn_accepts (the schema is well-formed and its own value conforms; NaN excluded: known finding "
              "F10, refuted witness proved), fn_rejects_different (every value the schema accepts is the same plain value "
-             "up to True/False~1/0 and math.isclose). Tie: per-run comparison of from_native's result/exception with "
-             "the model; oracle on /repo: validate(self), fake under a tape returns exactly the value consuming no "
-             "draw, every one-step perturbation at every depth is rejected, non-plain zoo refused with ValueError.",
-        note=COMMON_NOTE + "The generation clause is checked by the oracle on the real generator (and by the model "
-             "theorem gen_from_native once props/C01 is in place). F10 (NaN) is an open known finding.",
+             "up to True/False~1/0 and math.isclose), fn_generates_exactly (for every world and tape the generator "
+             "returns exactly the value and consumes no draw). Tie: per-run comparison of from_native's "
+             "result/exception with the model; oracle on /repo: validate(self), fake under a tape returns exactly the "
+             "value consuming no draw, every one-step perturbation at every depth is rejected, non-plain zoo refused "
+             "with ValueError.",
+        note=COMMON_NOTE + "F10 (NaN) is an open known finding; F11 repaired by a fix: commit.",
         technique="Coq proof (nested induction over values) + vm_compute correspondence + direct oracle",
         design="6 C14"),
     "C05": dict(
@@ -77,15 +78,18 @@ CHECKS = {
         technique="Coq proof (nested induction, positional window lemmas) + refutation witness by vm_compute + vm_compute correspondence + direct oracle",
         design="6 C04"),
     "C12": dict(
-        text="Theorem subst_only_substerr (Coq, all well-formed schemas, EVERY value incl. placeholders, opaque objects, "
-             "non-convertible members): substitute returns a schema or fails with SubstitutionError, never another "
-             "exception nor DeclarationError; ill_formed_raises shows the well-formedness hypothesis is needed (F22). "
-             "Idempotence and usability of the result are stated (subst_idempotent_statement) but decided on every run "
-             "by the oracle on /repo (second substitution returns an equal schema; when S is hereditarily generable, "
-             "S % v generates values it accepts under min/max/random tapes) and by the model correspondence - partial.",
-        note=COMMON_NOTE + "Open known findings: F10 (NaN: not idempotent / rejects its own pinned value), F22 (`...` "
-             "placeholder kept in the middle of an element list). F08, F09, F11 were repaired by fix: commits.",
-        technique="Coq proof (outcome-class invariant by nested induction) + vm_compute correspondence + direct oracle",
+        text="Theorems (Coq): subst_only_substerr (all well-formed schemas, EVERY value incl. placeholders, opaque "
+             "objects, unconvertible members: substitute returns a schema or fails with SubstitutionError, never "
+             "another exception nor DeclarationError; ill_formed_raises shows the well-formedness hypothesis is needed, "
+             "F22) and subst_idempotent + subst_result_revalidates (for every plain, NaN-free value with s % v = s': "
+             "s' % v = s', the SAME schema, and the partial validator accepts v at every path - also at the choice "
+             "points where 'the result accepts v' fails). 'Never returns a schema that cannot be generated from' is "
+             "decided per run by the oracle on /repo (when every sub-schema of S generates accepted values under "
+             "min/max/random tapes, so must S % v) - partial in that clause.",
+        note=COMMON_NOTE + "Open known findings: F10 (NaN: not idempotent / rejects its own pinned value; refuted "
+             "example in props/C12.v), F22 (`...` placeholder kept in the middle of an element list). F08, F09, F11 "
+             "were repaired by fix: commits.",
+        technique="Coq proof (outcome-class invariant + fixpoint lemma by nested induction over schemas and values) + vm_compute correspondence + direct oracle",
         design="6 C12"),
     "C18": dict(
         text="Theorems (Coq, all depths/fan-outs/orders of flat keys, no bound): split_join; rollout_flatten_inverse (for "
@@ -143,8 +147,8 @@ CHECKS = {
         text="Theorems (Coq, all schema trees, every subset of positions wrapped, all values): erase_validate / "
              "erase_validateR (a forwarding custom wrapper yields the same errors with the same paths and actual "
              "values, and the same exception where validation raises), erase_conforms, erase_subst (substitution "
-             "succeeds or fails identically), erase_wf; erase_gen (same tape -> same value) in props/C16.v once "
-             "GenerateSpec is in the closure. The printed form is not modelled here (C06). The real assurance that "
+             "succeeds or fails identically), erase_gen (every world, every tape: same value, same remaining tape), "
+             "erase_wf. The printed form is not modelled here (C06). The real assurance that "
              "the REAL containers forward path/indent/kwargs in every position is the correspondence: a forwarding "
              "CustomSchema defined in the harness, random trees with random positions wrapped (built from the built "
              "tree), compared wrapped vs unwrapped on validate (errors, paths, messages, both validators), generate "
